@@ -88,7 +88,7 @@ def shrink(sc):
         if len(t['ch']) > (2 if t['t'] == 'ens' else 1):
             yield dict(sc, tree=dict(t, ch=t['ch'][:-1]))
     for lf_i, lf in enumerate(servers.leaves(t)):
-        for key in ('b', 'stream_threads'):
+        for key in ('b', 'stream_threads', 'none_mod'):
             if lf.get(key):
                 import copy
                 t2 = copy.deepcopy(t)
